@@ -55,7 +55,11 @@ func runEngineO2(p *Prog, o *obls) {
 		if len(writes) == 0 || len(fn.Params) == 0 {
 			continue
 		}
-		hdr := ssa.Value(fn.Params[0])
+		pps := packetParams(c)
+		if len(pps) == 0 {
+			continue
+		}
+		hdr := ssa.Value(pps[0])
 		var files []*ssa.Call
 		derivedFromHdr := func(a ssa.Value) bool {
 			return p.backwardReaches(a, func(v ssa.Value) bool {
@@ -111,6 +115,57 @@ func runEngineO2(p *Prog, o *obls) {
 			}
 			for _, a := range args {
 				if derivedFromHdr(a) {
+					files = append(files, call)
+					return
+				}
+			}
+		})
+		// a repository helper that is handed something derived from the header and files it inside
+		// (stream.add(pkt) → rtpBuffer.Add under the stream's mutex) is a filing call too
+		filesInside0 := func(sc *ssa.Function, depth int) bool { return false }
+		var filesInsideRec func(sc *ssa.Function, depth int) bool
+		filesInsideRec = func(sc *ssa.Function, depth int) bool {
+			found := false
+			instrsOf(sc, func(in ssa.Instruction) {
+				call, ok := in.(*ssa.Call)
+				if !ok || found {
+					return
+				}
+				for _, g := range p.Callees(call) {
+					if !p.InUniverse(g) || g.Signature.Recv() == nil || g.Blocks == nil {
+						continue
+					}
+					if _, isPtr := g.Signature.Recv().Type().(*types.Pointer); isPtr {
+						if rn := namedOf(deref(g.Signature.Recv().Type())); rn != nil && fbTypes[typeKey(rn)] && mutatesReceiver(p, g, 0, memo) {
+							found = true
+							return
+						}
+					}
+					if depth > 0 && g != sc && filesInsideRec(g, depth-1) {
+						found = true
+						return
+					}
+				}
+			})
+			return found
+		}
+		_ = filesInside0
+		instrsOf(fn, func(in ssa.Instruction) {
+			call, ok := in.(*ssa.Call)
+			if !ok || isChainWrite(p, call) {
+				return
+			}
+			for _, f := range files {
+				if f == call {
+					return
+				}
+			}
+			sc := call.Call.StaticCallee()
+			if sc == nil || !p.InUniverse(sc) || sc.Blocks == nil {
+				return
+			}
+			for _, a := range call.Call.Args {
+				if derivedFromHdr(a) && filesInsideRec(sc, 1) {
 					files = append(files, call)
 					return
 				}
@@ -195,7 +250,7 @@ func runEngineO2(p *Prog, o *obls) {
 			if foreign {
 				continue
 			}
-			if !isFile(entry) && pathAvoiding(entry, w, isFile) {
+			if !isFile(entry) && unfiledPath(p, fn, w, isFile, hdr) {
 				bad = append(bad, fmt.Sprintf("the downstream Write at %s can be reached without %s: the packet leaves unrecorded", p.instrPos(w), shortCallee(calleeName(&files[0].Call))))
 			}
 		}
@@ -206,4 +261,55 @@ func runEngineO2(p *Prog, o *obls) {
 		}
 	}
 	o.ok("O2", "inspected", "-", fmt.Sprintf("%d writer closure(s) that file the outgoing packet for the feedback path", n))
+}
+
+// unfiledPath: control can reach w from the function's entry without executing a filing call and without taking the
+// "not this stream's packet" edge of a test of the header's SSRC (`if header.SSRC == info.SSRC { file }; forward`
+// forwards foreign packets unfiled through the merge point — by design).
+func unfiledPath(p *Prog, fn *ssa.Function, w ssa.Instruction, isFile func(ssa.Instruction) bool, hdr ssa.Value) bool {
+	foreignEdge := func(b *ssa.BasicBlock, succ int) bool {
+		c := ifCond(b)
+		if c == nil || len(b.Succs) != 2 {
+			return false
+		}
+		f := normFact(condFact{c, succ == 0})
+		bo, ok := f.cond.(*ssa.BinOp)
+		if !ok || !(bo.Op == token.NEQ && f.truth || bo.Op == token.EQL && !f.truth) {
+			return false
+		}
+		for _, side := range []ssa.Value{bo.X, bo.Y} {
+			if u, ok := p.origin(side).(*ssa.UnOp); ok && u.Op == token.MUL {
+				if fa, ok := u.X.(*ssa.FieldAddr); ok && p.origin(addrRoot(fa)) == hdr && fieldName(fieldKeyAddr(fa)) == "SSRC" {
+					return true
+				}
+			}
+		}
+		return false
+	}
+	seen := map[*ssa.BasicBlock]bool{}
+	var walk func(b *ssa.BasicBlock) bool
+	walk = func(b *ssa.BasicBlock) bool {
+		if seen[b] {
+			return false
+		}
+		seen[b] = true
+		for _, in := range b.Instrs {
+			if in == w {
+				return true
+			}
+			if isFile(in) {
+				return false
+			}
+		}
+		for i, s := range b.Succs {
+			if foreignEdge(b, i) {
+				continue
+			}
+			if walk(s) {
+				return true
+			}
+		}
+		return false
+	}
+	return walk(fn.Blocks[0])
 }
